@@ -184,3 +184,52 @@ pub fn run_twins(t: &TwinCases) -> Option<(&'static str, Outcome, String)> {
     }
     None
 }
+
+/// One decoded input for the `faults` target (C13): valid prefix, one malformed call with 1..=2 injected
+/// faults, valid suffix compared with a twin that never saw the malformed call.
+pub fn fault_case(data: &[u8]) -> Option<crate::props::c13::Case> {
+    use crate::props::c13::{CallCase, Case, ChCount, FPath, Fault};
+    let mut u = Unstructured::new(data);
+    let mut cfg = config(&mut u).ok()?;
+    cfg.kernel = if cfg.kernel == Kernel::RangeProbe { Kernel::Dispatch } else { cfg.kernel };
+    let seed: u64 = u.arbitrary().ok()?;
+    let cc = |u: &mut Unstructured| -> Result<ChCount> { Ok([ChCount::Zero, ChCount::Minus1, ChCount::Plus1, ChCount::Double][u.int_in_range(0..=3usize)?]) };
+    let nf = u.int_in_range(1..=2usize).ok()?;
+    let mut faults = vec![];
+    for _ in 0..nf {
+        faults.push(match u.int_in_range(0..=4u8).ok()? {
+            0 => Fault::InCh(cc(&mut u).ok()?),
+            1 => Fault::OutCh(cc(&mut u).ok()?),
+            2 => Fault::ShortIn { ch: u.arbitrary().ok()?, frac: u.arbitrary().ok()? },
+            3 => Fault::ShortOut { ch: u.arbitrary().ok()?, frac: u.arbitrary().ok()? },
+            _ => Fault::MaskLen(cc(&mut u).ok()?),
+        });
+    }
+    let path = [FPath::Pib, FPath::Alloc, FPath::PartialPib][u.int_in_range(0..=2usize).ok()?];
+    let m = mask(&mut u).ok()?;
+    let split: u8 = u.arbitrary().ok()?;
+    let n = u.int_in_range(0..=16usize).ok()?;
+    let mut ops = vec![];
+    for _ in 0..n {
+        match op(&mut u) {
+            Ok(o) => ops.push(o),
+            Err(_) => break,
+        }
+    }
+    let calls = ops.iter().filter(|o| o.is_call()).count().max(1) as f64;
+    while call_cost(&cfg) * calls > 1.5e6 && cfg.chunk > 1 {
+        cfg.chunk = (cfg.chunk / 2).max(1);
+    }
+    let k = (split as usize * (ops.len() + 1)) >> 8;
+    let (prefix, suffix) = (ops[..k].to_vec(), ops[k..].to_vec());
+    Some(Case::Call(CallCase { cfg, seed, prefix, faults, path, mask: m, suffix }))
+}
+
+pub fn run_fault(c: &crate::props::c13::Case) -> Option<Outcome> {
+    let o = crate::props::c13::C13.run(c);
+    if o.fail.is_some() {
+        Some(o)
+    } else {
+        None
+    }
+}
